@@ -1,5 +1,6 @@
 #!/bin/bash
 # verify_seed.sh <ID> [<NAME>] — confirm a seeded change in its scratch worktree /tmp/seed/<ID>:
+# (SEED_RUSTFLAGS / SEED_DEMO_TARGET: flags and target dir for the demonstration only, e.g. --cfg zerokit_verif)
 # existing suite passes with it, demonstration fails with it and passes without; then store under /verif/seeded/<NAME>
 ID=$1; NAME=${2:-$1}; WT=/tmp/seed/$ID; OUT=/tmp/seed/$ID-out; DST=/verif/seeded/$NAME
 export CARGO_NET_OFFLINE=true
@@ -14,9 +15,9 @@ cargo test --workspace --no-fail-fast --offline > /tmp/seed/$ID-suite.log 2>&1; 
 PASSED=$(grep -E "^test result" /tmp/seed/$ID-suite.log | awk '{s+=$4} END {print s}')
 FAILED=$(grep -E "^test .* FAILED" /tmp/seed/$ID-suite.log | grep -v performance | wc -l)
 cp $OUT/seeded_demo.rs $WT/$LOC
-cargo test --offline -p $PKG --test $TNAME > /tmp/seed/$ID-demo-with.log 2>&1; WITH=$?
+RUSTFLAGS="$SEED_RUSTFLAGS" CARGO_TARGET_DIR=${SEED_DEMO_TARGET:-$WT/target} cargo test --offline -p $PKG --test $TNAME > /tmp/seed/$ID-demo-with.log 2>&1; WITH=$?
 git apply -R $OUT/patch.diff
-cargo test --offline -p $PKG --test $TNAME > /tmp/seed/$ID-demo-without.log 2>&1; WITHOUT=$?
+RUSTFLAGS="$SEED_RUSTFLAGS" CARGO_TARGET_DIR=${SEED_DEMO_TARGET:-$WT/target} cargo test --offline -p $PKG --test $TNAME > /tmp/seed/$ID-demo-without.log 2>&1; WITHOUT=$?
 echo "ID=$ID suite_exit=$SUITE passed=$PASSED failed=$FAILED demo_with_change_exit=$WITH demo_without_change_exit=$WITHOUT"
 if [ "$FAILED" = "0" ] && [ $WITH -ne 0 ] && [ $WITHOUT -eq 0 ]; then
   mkdir -p $DST; cp $OUT/patch.diff $OUT/seeded_demo.rs $OUT/demo.md $DST/
